@@ -82,6 +82,14 @@ def effect_findings(facts):
                     out.append(("G-EFFECT", "%s calls %s" % (owner, strip_generics(n)),
                                 "call of `%s` (environment / time / global state / IO)" % n, where(b, c)))
                     break
+            # `{:?}` of a token / syntax-tree value prints its span (byte offsets of the invocation)
+            if any(re.search(r"core::fmt::rt::Argument::<[^>]*>::new_debug", n) for n in names):
+                tys = " ".join(c.get("gargs_s", []) + c["arg_tys"])
+                m = re.search(r"\b(proc_macro2?|syn)::[\w:]+", tys)
+                if m:
+                    out.append(("G-EFFECT", "%s position debug-format %s" % (owner, m.group(0)),
+                                "`%s` formats a `%s` with `{:?}`: the Debug output of token / syntax-tree values contains their span, so the expansion "
+                                "would depend on where the invocation is written" % (owner, m.group(0)), where(b, c)))
             for n in names:
                 if POSITION.search(strip_generics(n)):
                     out.append(("G-EFFECT", "%s position %s" % (owner, strip_generics(n)),
